@@ -456,7 +456,13 @@ class SReal(_SNum):
         raise EngineError('modulo of a symbolic real')
 
     def __round__(self, n=None):
-        raise EngineError('round() of a symbolic real')
+        """round() to the nearest integer, ties to even (Python 3 semantics); the result stays symbolic (SInt)"""
+        if n is not None:
+            raise EngineError('round(x, n) of a symbolic real')
+        h = self.e + z3.RealVal('1/2')
+        fl = z3.ToInt(h)
+        tie = z3.ToReal(fl) == h
+        return _fold(z3.If(z3.And(tie, fl % 2 != 0), fl-1, fl))
 
 
 class SBool:
